@@ -197,6 +197,10 @@ const (
 	maxWallPerCheck     = 150 * time.Second
 )
 
+// sampling is set while the harness itself draws examples from a generator (to calibrate thresholds): generator
+// functions that belong to a program must not record into the invocation log then.
+var sampling bool
+
 var curX *X // the most recently started invocation (programs are single threaded)
 
 // current reports whether x's invocation is still the most recent one, i.e. no later
@@ -575,6 +579,9 @@ type Step struct {
 	Acts  []Action
 	Inv   []Step // invariant ("" action); nil = none
 	Clean int    // cleanup behaviour
+	// Shared: the actions map of a repeat step is built once and reused for every invocation
+	Shared    bool
+	actsCache map[string]func(*rapid.T)
 }
 
 type Action struct {
@@ -754,9 +761,16 @@ func raiseOn(x *X, t *rapid.T, k int, site int) {
 
 func (x *X) repeat(s *Step) {
 	acts := map[string]func(*rapid.T){}
+	if s.Shared && s.actsCache != nil {
+		// one actions map built once and handed to Repeat in every invocation (it must not be modified by
+		// Repeat); the call below is the single call site, so that the call stack is the same every time
+		acts = s.actsCache
+		goto run
+	}
 	for i := range s.Acts {
 		a := &s.Acts[i]
 		acts[a.Name] = func(t *rapid.T) {
+			x := curX // the invocation in progress (the map may be shared between invocations)
 			// the action-selection draw is logged by rapid as draw "action"
 			x.inv.Draws = append(x.inv.Draws, Draw{Label: "action", Canon: canon(a.Name), GoStr: fmt.Sprintf("%#v", a.Name), Level: x.level})
 			start := len(x.inv.Draws) - 1
@@ -795,6 +809,7 @@ func (x *X) repeat(s *Step) {
 	}
 	if s.Inv != nil {
 		acts[""] = func(t *rapid.T) {
+			x := curX
 			x.ev("check>")
 			saved := x.where
 			x.where = "invariant"
@@ -803,6 +818,10 @@ func (x *X) repeat(s *Step) {
 			x.ev("check<")
 		}
 	}
+	if s.Shared {
+		s.actsCache = acts
+	}
+run:
 	x.t.Repeat(acts)
 }
 
@@ -938,6 +957,8 @@ func siblingGX(r *rng) *GX {
 // exampleInt samples the integer view of a generator through Example(seed)
 // (deterministic) so that thresholds are sometimes, not always, exceeded.
 func exampleInt(g *GX) (vals []int64, ok bool) {
+	sampling = true
+	defer func() { sampling = false }()
 	defer func() {
 		if recover() != nil {
 			vals, ok = nil, false
@@ -955,6 +976,8 @@ func exampleInt(g *GX) (vals []int64, ok bool) {
 }
 
 func exampleHasIntView(g *GX) (ok bool) {
+	sampling = true
+	defer func() { sampling = false }()
 	defer func() {
 		if recover() != nil {
 			ok = false
@@ -1030,7 +1053,7 @@ func (o progOpts) failPred(r *rng, p *Prog, sibling bool) Pred {
 }
 
 func genRepeat(r *rng, o progOpts) Step {
-	st := Step{Op: "repeat"}
+	st := Step{Op: "repeat", Shared: r.chance(1, 3)}
 	na := r.between(1, 4)
 	for i := 0; i < na; i++ {
 		a := Action{Name: fmt.Sprintf("A%d", i)}
@@ -1079,7 +1102,7 @@ func gxCustomFail(r *rng, o progOpts) *GX {
 	gen := rapid.Custom(func(t *rapid.T) any {
 		x := curX
 		v := rapid.IntRange(0, 1000).Draw(t, "cf")
-		if mix(uint64(v), salt)%den == 0 && x != nil {
+		if mix(uint64(v), salt)%den == 0 && x != nil && !sampling {
 			saved := x.where
 			x.where = "custom"
 			defer func() { x.where = saved }()
